@@ -152,6 +152,10 @@ def check(ctx: Ctx):
     z = [s for s in hg2.node.body if isinstance(s, ast.If) and norm(s.test) == "self._potential_gain == 0"]
     ctx.check(len(z) == 1, "R-GAIN", "MGM2: a null potential gain never moves", hg2, z[0] if z else hg2.node, "gain 0 means no improvement: no move and no arbitration")
     G.check_go_decision(ctx, hg2, "R-GO")
+    G.check_go_order(ctx, hg2, "R-GO")
+    n_es = G.check_enter_state_last(ctx, [m_ for m_ in repo.cls(MGM2, "Mgm2Computation").methods.values()], "R-GO")
+    if n_es < 8:
+        raise AnalysisError(f"MGM2: only {n_es} paths entering a state found (8 confirmed by reading)")
     G.check_offer_slots(ctx, repo, "R-GO")
     G.check_mgm_costmodel(ctx, cb, hv, "R-GAIN")
     # flows
